@@ -141,6 +141,14 @@ class Scaler(Transformer):
         """
         self._verify_input(X, "X")
 
+        # Broadcasting against the fitted parameters would silently re-create a missing dimension
+        fitted = (self.mean_, self.std_, self.coslat_weights_, self.weights_)
+        missing_dims = set().union(*(set(p.dims) for p in fitted)) - set(X.dims)
+        if missing_dims:
+            raise ValueError(
+                f"Cannot transform data. Dimensions {missing_dims} are missing in the data."
+            )
+
         params = self.get_params()
 
         if params["with_center"]:
